@@ -5,7 +5,7 @@ import LexVerif.Model.Bellerophon
 `binary`, `slow_binary`, `parse_u64_digits` (lexical-parse-float/src/binary.rs), `calculate_power2`,
 `calculate_shift`, `log2` (shared.rs) — the **current** code, including the fixes 220c4cc (saturating
 `calculate_power2`), ead3b71 (zero mantissa), 8f70c74 (`slow_binary` stops after `u64_step` digits),
-0628223 (values in (1/2, 1) of the least denormal round up).
+0628223 (values in (1/2, 1) of the least denormal round up), 6cdda4d (infinity before the invalid marker).
 
 Tie: **R** — float constants, `u64_step` (`Gen.SmallPowers`); **C** — ops `bin`, `sbin`.
 -/
@@ -45,6 +45,9 @@ def binary (F : FTy) (expBase : Nat) (n : Num) (lossy : Bool) : AlgoRes :=
     let mantissa := shl64m n.mantissa ctlz
     let power2 := calculatePower2 F expBase n.exponent ctlz
     if -power2 + 1 > 64 then .ok fpZero
+    -- /repo commit 6cdda4d: at or beyond the exponent of infinity whatever the rounding does
+    -- (the invalid marker below is only negative for exponents below 2^15)
+    else if power2 ≥ F.C.infinitePower then .ok { mant := 0, exp := F.C.infinitePower }
     else
       let shift := (calculateShift F power2).toNat
       -- `last_bit = if shift == 64 { 0 } else { 1 << shift }`, `truncated = last_bit.wrapping_sub(1)`
